@@ -941,3 +941,19 @@ package core
 //@   ensures[C01.pi_mod_never_drops_a_key]       piKeepsKeys()
 //@   ensures[C01.pi_mod_keeps_other_ids]         piKeepsOtherIds(id)
 //@   ensures[C01.pi_add_adds_no_foreign_id]      forall(s, StringSet, forall(x, string, !fresh(s) && x != id && has(s, x) ==> old(has(s, x))))
+
+// ---- C01: the trie's read path never writes the trie ---------------------------------------------
+//@ define ssOthersUnchanged(s) = forall(t, StringSet, t != s ==> len(t) == old(len(t))) && forall(t, StringSet, forall(y, string, t != s ==> has(t, y) == old(has(t, y))))
+//@ func (StringSet).AddAll
+//@   modifies s[*]
+//@   ensures[C01.ss_addall_returns_receiver] result == s
+//@   loop 1: invariant[C01.ss_addall_loop] ssOthersUnchanged(s)
+//@ define piNodesUnchanged() = forall(n, *PatternIndex, !fresh(n) ==> n.Var == old(n.Var) && n.Map == old(n.Map) && n.String == old(n.String) && n.Ids == old(n.Ids))
+//@ define piKeysUnchanged() = forall(m, map[string]*PatternIndex, forall(k, string, !fresh(m) ==> has(m, k) == old(has(m, k)) && m[k] == old(m[k])))
+//@ define piIdsUnchanged() = forall(s, StringSet, forall(x, string, !fresh(s) ==> has(s, x) == old(has(s, x))))
+//@ func (*PatternIndex).searchPairs
+//@   ensures[C01.pi_search_result_is_a_fresh_set] result1 == nil ==> fresh(result0)
+//@   ensures[C01.pi_search_leaves_nodes_alone] piNodesUnchanged()
+//@   ensures[C01.pi_search_leaves_keys_alone]  piKeysUnchanged()
+//@   ensures[C01.pi_search_leaves_ids_alone]   piIdsUnchanged()
+//@   loop 2: invariant[C01.pi_search_loop] piNodesUnchanged() && piKeysUnchanged() && piIdsUnchanged()
